@@ -5,12 +5,96 @@ from pyvc import spec as S, vals as V
 from pyvc.base import VC
 
 LEVEL = "proof"
-FLOOR = 5
-EXPLANATION = ""
-TRUSTED = []
+FLOOR = 100
+EXPLANATION = ("EntrySetIterator.__next__ is verified (inductive invariant over the skipped prefix) to yield exactly the next entry whose own calendar date lies "
+               "in [from, to], both bounds inclusive, and to stop only at the end of the list or at the first entry dated after the to-date; duplicate() / "
+               "InputData.__init__ to produce views that share the entry list (same objects => same figures) with exactly the requested window; "
+               "_sort_entries/__iter__ to keep a chronological list as it is; the matcher's independence of the window is a read-frame obligation over the "
+               "AST of tax_engine / accounting_engine / abstract_accounting_method / gain_loss (no from_date/to_date/filtered_* read outside compute_tax's "
+               "final ComputedData(...) call, event and gain/loss sets created with MIN_DATE/MAX_DATE).")
+TRUSTED = ["A-SORT (list.sort is a stable sort by key)", "copy.copy is a shallow copy", "A-DT: .date() is the calendar date of the timestamp in its own UTC offset",
+           "A-ANNOT", "heap closedness (fields of allocated objects refer to allocated objects)"]
 ASSUMPTIONS = TRUSTED
 AES = "rp2.abstract_entry_set.AbstractEntrySet"
+MATCHER_MODULES = ["rp2.tax_engine", "rp2.accounting_engine", "rp2.abstract_accounting_method", "rp2.gain_loss", "rp2.plugin.accounting_method.fifo",
+                   "rp2.plugin.accounting_method.lifo", "rp2.plugin.accounting_method.hifo", "rp2.plugin.accounting_method.lofo"]
 
 
 def items(pr):
-    return [fn("rp2.abstract_entry_set.EntrySetIterator.__next__"), fn(AES + "._sort_entries"), fn(AES + ".__iter__"), fn(AES + ".duplicate"), fn("rp2.input_data.InputData.__init__")]
+    return [fn("rp2.abstract_entry_set.EntrySetIterator.__next__"), fn(AES + "._sort_entries"), fn(AES + ".__iter__"), fn(AES + ".duplicate"),
+            fn("rp2.input_data.InputData.__init__"), custom("matcher_read_frame", matcher_read_frame)]
+
+
+def matcher_read_frame(pr):
+    """Lot matching always starts from the beginning of the history: nothing that computes gain/loss fractions reads the date window."""
+    import ast
+    out = []
+    forbidden = {"from_date", "to_date", "filtered_in_transaction_set", "filtered_out_transaction_set", "filtered_intra_transaction_set", "_from_date", "_to_date"}
+    for mname in MATCHER_MODULES:
+        m = pr.tree.modules.get(mname)
+        if m is None:
+            out.append(VC(f"tree:{mname}", "readframe", "module_present", [], z3.BoolVal(False), mname, 0))
+            continue
+        hits = []
+        for fnode in ast.walk(m.tree):
+            if not isinstance(fnode, ast.FunctionDef):
+                continue
+            for n in ast.walk(fnode):
+                if isinstance(n, ast.Attribute) and n.attr in forbidden:
+                    # the one allowed use: compute_tax hands the window to ComputedData (which only filters what is shown)
+                    if mname == "rp2.tax_engine" and fnode.name == "compute_tax" and isinstance(n.value, ast.Name) and n.value.id == "configuration":
+                        continue
+                    hits.append(f"{fnode.name}:{n.lineno}:{n.attr}")
+                if isinstance(n, ast.Name) and n.id in ("from_date", "to_date") and mname != "rp2.gain_loss":
+                    hits.append(f"{fnode.name}:{n.lineno}:{n.id}")
+        out.append(VC(f"{mname}/<module>", "readframe", "no_read_of_the_date_window", [], z3.BoolVal(not hits), m.relpath, 0, note="; ".join(hits)))
+    # the two sets the matcher builds span all of time
+    te = pr.tree.modules["rp2.tax_engine"]
+    ok_ctor = {"TransactionSet": False, "GainLossSet": False}
+    for n in ast.walk(te.tree):
+        if isinstance(n, ast.Call) and isinstance(n.func, ast.Name) and n.func.id in ok_ctor:
+            names = [a.id for a in n.args if isinstance(a, ast.Name)]
+            ok_ctor[n.func.id] = names[-2:] == ["MIN_DATE", "MAX_DATE"]
+    for k, ok in ok_ctor.items():
+        out.append(VC("rp2.tax_engine/<module>", "readframe", f"{k}_spans_all_time", [], z3.BoolVal(ok), te.relpath, 0))
+    # compute_tax passes exactly configuration.from_date / to_date to ComputedData and the unfiltered sets to the matcher
+    ct = pr.tree.func("rp2.tax_engine.compute_tax")
+    ret = [n for n in ast.walk(ct.node) if isinstance(n, ast.Return)]
+    good = False
+    if len(ret) == 1 and isinstance(ret[0].value, ast.Call) and getattr(ret[0].value.func, "id", "") == "ComputedData":
+        a = ret[0].value.args
+        good = len(a) == 6 and ast.unparse(a[4]) == "configuration.from_date" and ast.unparse(a[5]) == "configuration.to_date" and \
+            ast.unparse(a[1]) == "unfiltered_taxable_event_set" and ast.unparse(a[2]) == "unfiltered_gain_loss_set"
+    out.append(VC("rp2.tax_engine.compute_tax", "readframe", "window_goes_only_to_ComputedData", [], z3.BoolVal(good), ct.loc(), 0))
+    return out
+
+
+def canaries(pr):
+    def exclusive_upper_bound(pr):
+        from contracts import entry_set as E
+        q = "rp2.abstract_entry_set.EntrySetIterator.__next__"
+        saved = S.CONTRACTS[q]
+        k = S.Contract(q)
+        k.requires_ = list(saved.requires_)
+        k.modifies_, k.modifies_declared = list(saved.modifies_), True
+        k.raises_ = list(saved.raises_)
+        k.ensures("strictly_before_to_date", lambda s: E.entry_day(s, s.result) < E.eto(E.it_set(s.a.self)).t)
+        S.CONTRACTS[q] = k
+        try:
+            return pr.gen_fn(q, canary=True)
+        finally:
+            S.CONTRACTS[q] = saved
+    return [("window_exclusive_at_to_date_must_fail", exclusive_upper_bound)]
+
+
+MANIFEST_ENTRY = {
+    "category": "proof",
+    "text": ("Every obligation generated from the current source of EntrySetIterator.__next__ (loop invariant, normal and StopIteration postconditions), "
+             "AbstractEntrySet._sort_entries / __iter__ / duplicate and InputData.__init__ is discharged by z3 for all lists, windows and time zones: the "
+             "iterator yields exactly the entries whose own calendar date is in [from, to] up to the first entry dated after the to-date; filtered sets are "
+             "views sharing the unfiltered entry list; plus syntactic read-frame obligations showing the matcher never reads the window."),
+    "note": ("'iter_view = window' for a whole list needs local dates to be monotone along the instant-sorted list; with mixed time zones the iterator "
+             "stops at the first entry dated after the to-date although later entries may be inside the window (DESIGN 9.2) - the contract states exactly "
+             "what the iterator does, the end-to-end consequence is reported by the bounded native check as a known finding. ComputedData.__init__'s own "
+             "loops (running sums, sold percentage) are reported under C13/C15."),
+}
